@@ -175,7 +175,8 @@ def gen_tables(tier, part, of):
                     if i % of == part:
                         yield {'lrtype': lrtype, 'name': name, 'cols': COLS[:2], 'rows': [[c0, c1]], 'maxlen': maxlen}
     # 2 rows x 2 columns: full product of second-column cells, row names incl. a duplicate
-    for r0, r1 in ((b'ROW1', b'R2  '), (b'ROW1', b'ROW1'), (b'', b''), (b'R2  ', b'')):
+    # (names that share their first four bytes are different names)
+    for r0, r1 in ((b'ROW1', b'R2  '), (b'ROW1', b'ROW1'), (b'', b''), (b'R2  ', b''), (b'DEPTH1', b'DEPTH2'), (b'ROW1', b'ROW1B')):
         for c0 in cells:
             for c1 in cells:
                 i += 1
